@@ -85,6 +85,12 @@ func (p *makefileParser) parse() (PackageDTO, bool, error) {
 					annotationLines = append(annotationLines, content)
 					annotationLineNumbers = append(annotationLineNumbers, lineCount)
 				} else {
+					if len(annotationLines) == 0 {
+						// An empty "# @grog" block with no annotation lines: skip it,
+						// as the script loader does.
+						break
+					}
+
 					// End of annotation: this should be the target definition.
 					if err := p.handleTarget(annotationLines, annotationLineNumbers, nextLine); err != nil {
 						return p.pkg, targetsFound, err
